@@ -855,8 +855,14 @@ func runC02(c *Ctx) {
 		mask := uint(0)
 		MustWrite(filepath.Join(dir, "m.fo"), it.prog.source(mask))
 		MustWrite(filepath.Join(dir, "c02.foi"), c02Foi())
-		r := c.Fc(dir, "c02.foi", "m.fo")
+		r := Run(dir, 180*time.Second, 4096, []string{"GOMAXPROCS=2"}, filepath.Join(c.Bin, "fc"), "c02.foi", "m.fo")
 		c.Count("real_fc_process_runs")
+		if r.TimedOut {
+			// machine load, not a property of the output (termination is C16's business)
+			c.Count("real_fc_process_timeouts")
+			c.Note("fc process did not finish within 180 s on program %d (not compared)", it.prog.ID)
+			return
+		}
 		b, _ := os.ReadFile(filepath.Join(dir, "gen_m.go"))
 		if r.Exit != 0 || string(b) != it.fullGen {
 			c.Violate("hook", "hooked in-process fc and the fc process disagree on the emitted file",
